@@ -134,4 +134,28 @@ mod verif_kani_record {
         std::mem::forget(s1);
         std::mem::forget(s2);
     }
+
+    // release-side size formula for EVERY admissible key and value length (no bytes are touched:
+    // the key buffer is allocated with the symbolic length but never written)
+    #[kani::proof]
+    #[kani::unwind(4)]
+    #[kani::stub(parking_lot::RawRwLock::lock_shared_slow, pl_lock_shared_slow)]
+    #[kani::stub(parking_lot::RawRwLock::lock_exclusive_slow, pl_lock_exclusive_slow)]
+    #[kani::stub(parking_lot::RawRwLock::unlock_shared_slow, pl_unlock_shared_slow)]
+    #[kani::stub(parking_lot::RawRwLock::unlock_exclusive_slow, pl_unlock_exclusive_slow)]
+    #[kani::stub(parking_lot::RawMutex::lock_slow, pl_mutex_lock_slow)]
+    #[kani::stub(parking_lot::RawMutex::unlock_slow, pl_mutex_unlock_slow)]
+    fn record_size_formula_all_lengths() {
+        let k: usize = kani::any();
+        let v: usize = kani::any();
+        kani::assume(k >= 1 && k <= MAX_KEY_SIZE && v >= 1 && v <= MAX_VALUE_SIZE);
+        let mut key: Vec<u8> = Vec::with_capacity(k);
+        unsafe { key.set_len(k) };
+        kani::assume(key.capacity() == k); // exact-capacity keys, as produced by to_vec()/clone() (A7)
+        let mut r = Record::new(key, Vec::new(), 1);
+        r.value_len = v;
+        assert!(r.calculate_size() == mem::size_of::<Record>() + k + v, "accounted size = fixed overhead + key length + value length, for every admissible length");
+        kani::cover!(k > 65535);
+        std::mem::forget(r);
+    }
 }
